@@ -30,7 +30,7 @@ RULE = (
     "(so an optimum can be lost). Labels report how many instances have an "
     "optimum that no non-delay schedule attains."
 )
-BUDGET = {"quick": 1500, "thorough": 2500}
+BUDGET = {"quick": 1500, "thorough": 8000}
 ASSUMPTIONS = [
     "an optimal schedule exists among dispatch histories (semi-active schedules), so the model's exhaustive minimum is the true optimum",
 ]
